@@ -1,5 +1,6 @@
 import Gimli.Lemmas.Leb
 import Gimli.Lemmas.Ints
+import Gimli.Lemmas.Macros
 /-!
 # C01 — untrusted input never panics, aborts, overflows the stack or hangs
 
@@ -80,5 +81,24 @@ theorem initial_length_total (e : Endian) (ob : Nat) (bs : Bytes) : (readInitial
   simp only
   repeat' split
   all_goals simp [Out.Normal]
+
+
+/-! ## `.debug_macinfo` / `.debug_macro`: `MacroIter` -/
+
+/-- a single `MacroIter::next` call returns a value or an error on every input, in both section
+kinds, formats and byte orders -/
+theorem macro_next_total (e : Endian) (f : Format) (isMacro : Bool) (bs : Bytes) :
+    (Macros.next e f isMacro bs).1.Normal :=
+  Macros.next_normal e f isMacro bs
+
+/-- **step bound, errors ignored**: a caller that keeps calling `next()` whatever it returns sees
+`Ok(None)` after at most `len + 1` calls (every call that is not `Ok(None)` consumes at least the
+type byte, including the calls that fail) -/
+theorem macro_iter_bounded (e : Endian) (f : Format) (isMacro : Bool) (bs : Bytes) :
+    ∃ k, (Macros.iter e f isMacro).callsUntilDone (bs.length + 1) bs = some k ∧ k ≤ bs.length + 1 :=
+  Iter.bounded_of_measure (Macros.iter e f isMacro) List.length
+    (fun s h => Macros.next_decreases e f isMacro s h) (bs.length + 1) bs (Nat.lt_succ_self _)
+
+example : (Macros.iter .little .dwarf32 false).callsUntilDone 3 [1, 0x80] = some 2 := by decide
 
 end Gimli.Props.C01
